@@ -1,0 +1,122 @@
+//! Observation hooks for runtime verification (cargo feature `verif-hooks`, off by default).
+//!
+//! Additive instrumentation only: a thread-local sink that records, per interpreter run, the
+//! number of executed instructions, the stack high-water mark, the largest memory size, an opcode
+//! histogram, every taken jump, and how often contract state was flushed / reloaded around calls.
+//! A step watchdog and a memory cap let a monitoring harness stop runaway programs (there is no gas
+//! metering outside the FVM); both are disabled until `reset` is called with finite limits.
+
+use fil_actors_runtime::ActorError;
+use std::cell::RefCell;
+
+#[derive(Clone, Debug)]
+pub struct Report {
+    pub steps: u64,
+    pub max_stack: usize,
+    pub max_mem: usize,
+    pub opcodes: [u64; 256],
+    /// (code length, pc of the jump instruction, destination) of taken jumps (first 4096)
+    pub jumps: Vec<(usize, u32, u32)>,
+    pub flushes: u64,
+    pub reloads: u64,
+    /// the step watchdog or the memory cap stopped a run
+    pub watchdog: bool,
+}
+
+impl Default for Report {
+    fn default() -> Self {
+        Report {
+            steps: 0,
+            max_stack: 0,
+            max_mem: 0,
+            opcodes: [0; 256],
+            jumps: Vec::new(),
+            flushes: 0,
+            reloads: 0,
+            watchdog: false,
+        }
+    }
+}
+
+struct Sink {
+    report: Report,
+    step_limit: u64,
+    mem_cap: usize,
+}
+
+thread_local! {
+    static SINK: RefCell<Sink> = RefCell::new(Sink { report: Report::default(), step_limit: u64::MAX, mem_cap: usize::MAX });
+}
+
+/// Clear the record and set the limits (instructions per record, bytes of EVM memory).
+pub fn reset(step_limit: u64, mem_cap: usize) {
+    SINK.with(|s| {
+        let mut s = s.borrow_mut();
+        s.report = Report::default();
+        s.step_limit = step_limit;
+        s.mem_cap = mem_cap;
+    });
+}
+
+/// Return the record accumulated since the last `take`/`reset` and start a new one.
+pub fn take() -> Report {
+    SINK.with(|s| std::mem::take(&mut s.borrow_mut().report))
+}
+
+#[inline]
+pub fn on_step(op: u8, stack_len: usize, mem_len: usize) -> Result<(), ActorError> {
+    SINK.with(|s| {
+        let mut s = s.borrow_mut();
+        s.report.steps += 1;
+        s.report.opcodes[op as usize] += 1;
+        if stack_len > s.report.max_stack {
+            s.report.max_stack = stack_len;
+        }
+        if mem_len > s.report.max_mem {
+            s.report.max_mem = mem_len;
+        }
+        if s.report.steps > s.step_limit {
+            s.report.watchdog = true;
+            return Err(ActorError::unchecked(
+                fvm_shared::error::ExitCode::SYS_OUT_OF_GAS,
+                "verif-hooks: step watchdog".into(),
+            ));
+        }
+        Ok(())
+    })
+}
+
+#[inline]
+pub fn on_jump(code_len: usize, pc: usize, dst: usize) {
+    SINK.with(|s| {
+        let mut s = s.borrow_mut();
+        if s.report.jumps.len() < 4096 {
+            s.report.jumps.push((code_len, pc as u32, dst as u32));
+        }
+    })
+}
+
+#[inline]
+pub fn on_mem(new_size: usize) -> Result<(), ActorError> {
+    SINK.with(|s| {
+        let mut s = s.borrow_mut();
+        if new_size > s.mem_cap {
+            s.report.watchdog = true;
+            return Err(ActorError::unchecked(
+                fvm_shared::error::ExitCode::SYS_OUT_OF_GAS,
+                "verif-hooks: memory cap".into(),
+            ));
+        }
+        Ok(())
+    })
+}
+
+#[inline]
+pub fn on_flush() {
+    SINK.with(|s| s.borrow_mut().report.flushes += 1)
+}
+
+#[inline]
+pub fn on_reload() {
+    SINK.with(|s| s.borrow_mut().report.reloads += 1)
+}
